@@ -236,6 +236,13 @@ def main(argv=None):
         cov.update({"evaluations": max(1, ev_total), "distinct_nontrivial": dn,
                     "rule": "; ".join(r.detail.get("rule", "") for r in bounded),
                     "samples": [s for r in bounded for s in r.detail.get("samples", [])][:6] or samples})
+    if known and level == "proof":
+        # a property with recorded known findings is not proved: the refuted obligations are excluded from 'discharged'
+        level = "other"
+    if level == "other":
+        cov["explanation"] = (f"{len(proved)} of {n_obl} generated proof obligations discharged; {len(known)} refuted obligations are the "
+                              f"recorded known findings (genuine defects replayed on the real code, listed in known_findings.json) and are "
+                              f"reported on every run as KNOWN-FINDING lines; everything outside those obligations is proved as for level 'proof'")
     ev = {"property_id": pid, "tier": a.tier if a.tier in ("quick", "thorough") else "quick", "seed": seed, "level": level, "coverage": cov,
           "assumptions": list(getattr(cm, "ASSUMPTIONS", [])), "wall_s": round(wall, 2), "violations": len(violations)}
     os.makedirs(os.path.join(ROOT, "evidence"), exist_ok=True)
